@@ -106,9 +106,10 @@ _logged = []
 
 
 def _log_observer(ev):
-    if ev.get("isError"):
+    lvl = getattr(ev.get("log_level"), "name", "")
+    if ev.get("isError") or lvl in ("error", "critical"):
         w = CTX.world
-        f = ev.get("failure")
+        f = ev.get("failure") or ev.get("log_failure")
         if f is not None:
             rec = (type(f.value).__name__, str(f.value)[:160], _where(f))
         else:
@@ -150,10 +151,5 @@ def install():
     dm.os = OsProxy("dilside")
     wk.utils = NaclUtils()
     wk.SPAKE2_Symmetric = make_memo_spake()
-    txlog.addObserver(_log_observer)
-    # keep twisted from printing unhandled-error noise to stderr
-    if not os.environ.get("VERIF_DEBUG"):
-        try:
-            txlog.theLogPublisher  # noqa
-        except Exception:
-            pass
+    from twisted.logger import globalLogBeginner
+    globalLogBeginner.beginLoggingTo([_log_observer], redirectStandardIO=False, discardBuffer=True)
